@@ -284,6 +284,13 @@ def native_get_matrix(kind, i_enc, i_imp, s, k_pat, vector):
     return [int(v) for v in x], [bool(a) for a in act], np.array(m).tolist()
 
 
+def native_get_conn_idx(kind, i_enc, i_imp, s, k_pat, vector):
+    settings, exist = pool.to_settings(s)
+    mgr, enc = build_manager(kind, i_enc, i_imp, settings)
+    x, act, edges = mgr.get_conn_idx(list(vector), existence=exist[k_pat])
+    return [int(v) for v in x], [bool(a) for a in act], (None if edges is None else [(int(a), int(b)) for a, b in edges])
+
+
 def is_marker(m, ns, nt):
     a = np.array(m)
     return a.shape == (ns, nt) and a.size > 0 and bool(np.all(a == -1))
@@ -515,6 +522,19 @@ def run_instance(inst, tier='quick', seed=0):
                 _viol(res, 'decode', dict(kind='not_a_fixed_point', encoder=f'{kind}{i_enc}', imputer=i_imp,
                                           settings=pool.settings_label(s), pattern=pl), cfg,
                       dict(vector=list(key), pattern=pl, k_pat=k_pat, first_input=lst[0][2]), dict(decode_of_corrected=nat), dict(first_decode=want))
+            else:
+                res['discharged'] += 1
+        # get_conn_idx: the edge list is the matrix, edge (i, j) repeated M[i][j] times, in row-major order
+        for key, lst in list(by_x.items())[:60]:
+            res['obligations'] += 1
+            try:
+                cx, ca, edges = native_get_conn_idx(kind, i_enc, i_imp, s, k_pat, list(key))
+            except Exception as x_:  # noqa
+                cx, ca, edges = None, None, f'{type(x_).__name__}: {x_}'
+            want_edges = [(i, j) for i in range(ns) for j in range(nt) for _ in range(lst[0][0][i][j])]
+            if edges != want_edges or cx != list(key):  # (activeness is the subject of the C07 obligations)
+                _viol(res, 'decode', dict(kind='conn_idx_vs_matrix', encoder=f'{kind}{i_enc}', imputer=i_imp, settings=pool.settings_label(s), pattern=pl), cfg,
+                      dict(vector=list(key), pattern=pl, k_pat=k_pat), dict(get_conn_idx=[cx, ca, edges]), dict(matrix=lst[0][0], edges=want_edges))
             else:
                 res['discharged'] += 1
 
